@@ -193,6 +193,25 @@ func runCheck[C any](t *testing.T, id string, gen func(*rapid.T) C, exec func(C)
 	})
 }
 
+// fuzzOne runs one fuzz-generated case through the journaling protocol; replayTest names the
+// rapid test that can re-execute the saved case.
+func fuzzOne[C any](t *testing.T, id, replayTest string, c C, exec func(C) *Outcome) {
+	cj, _ := json.Marshal(c)
+	wrapped, _ := json.Marshal(replayFile{Property: id, Test: replayTest, Case: cj})
+	// one journal per worker process: fuzz workers run in parallel
+	cur := filepath.Join(outDir(), fmt.Sprintf("current-%s-fuzz-%d.json", id, os.Getpid()))
+	writeFileAtomic(cur, wrapped)
+	o := exec(c)
+	if o.Inconclusive || o.Known != "" {
+		return
+	}
+	if o.Err != nil {
+		writeFileAtomic(filepath.Join(outDir(), "failing-"+id+".json"), wrapped)
+		t.Fatalf("property %s violated: %v", id, o.Err)
+	}
+	_ = os.Remove(cur)
+}
+
 type replayFile struct {
 	Property string          `json:"property"`
 	Test     string          `json:"test"`
